@@ -258,6 +258,11 @@ def mk_solver(args: HalmosConfig, logic="QF_AUFBV", ctx=None) -> Solver:
     # z3 expects an int in milliseconds
     timeout_ms = int(args.solver_timeout_branching * 1000)
 
+    # 0 means no timeout: a positive timeout below 1ms must not be truncated to it,
+    # and z3 takes the value modulo 2**32
+    if args.solver_timeout_branching > 0:
+        timeout_ms = min(max(timeout_ms, 1), 2**32 - 1)
+
     return create_solver(
         logic=logic,
         ctx=ctx,
